@@ -459,4 +459,78 @@ theorem imm_findRenew_v2_congr (h h' : Bytes → Bytes) (rs rs' : Bytes) (hr : h
     simp only [isRenewSecret, hr]
     by_cases hm : (l.renew == h' rs') = true <;> simp [hm]
 
+/-! ### `cancel_lease` (mutable container) -/
+
+theorem filter_filterMap' {α β : Type} (f : α → Option β) (p : β → Bool) (l : List α) :
+    (l.filterMap f).filter p = l.filterMap (fun x => (f x).filter p) := by
+  induction l with
+  | nil => rfl
+  | cons a t ih =>
+    simp only [List.filterMap_cons]
+    cases h : f a with
+    | none => simpa using ih
+    | some b =>
+      by_cases hp : p b <;> simp [hp, ih, Option.filter]
+
+/-- a record with owner 0 decodes to "empty slot" -/
+theorem decodeRec_blank (l : Lease) (h0 : l.owner = 0) : decodeRec (serMut l) = none := by
+  unfold decodeRec parseMut serMut
+  have : pread (packU32 l.owner ++ packU32 l.expire ++ fixN 32 l.renew ++ fixN 32 l.cancel ++ fixN 20 l.nodeid) 0 4
+      = packU32 l.owner := by
+    simp only [List.append_assoc]; exact pread_append_prefix _ _ _ (by simp)
+  rw [h0] at this
+  have hz : unpackBE (packU32 0) = 0 := unpackBE_packU32 0 (by omega)
+  simp only [h0]
+  rw [if_pos (by rw [this]; exact hz)]
+
+/-- blanking slot `i` removes exactly the entry of slot `i` from the lease list -/
+theorem enumerateLeases_blank (f : File) (hwf : WF f) (i : Nat) (hi : i < 4 + numExtra f) (rec : Bytes)
+    (hrec : rec.length = 92) (hdec : decodeRec rec = none) :
+    enumerateLeases (writeLeaseRecord f i rec) = (enumerateLeases f).filter (fun p => p.1 != i) := by
+  obtain ⟨_, hnum⟩ := writeLeaseRecord_spec f hwf i rec hrec (by omega) (Or.inl hi)
+  rw [if_pos hi] at hnum
+  unfold enumerateLeases numLeaseSlots
+  rw [hnum, filter_filterMap']
+  apply filterMap_congr'
+  intro j hj
+  have hj' := List.mem_range.mp hj
+  rw [readLeaseRecord_write f hwf i hi rec hrec j hj']
+  by_cases hji : j = i
+  · subst hji
+    simp only [if_true, hdec]
+    cases readLeaseRecord f j with
+    | none => rfl
+    | some o => cases o <;> simp [Option.filter]
+  · simp only [hji, if_false]
+    cases readLeaseRecord f j with
+    | none => rfl
+    | some o => cases o <;> simp [Option.filter, hji]
+
+theorem blankSlots_spec (rec : Bytes) (hrec : rec.length = 92) (hdec : decodeRec rec = none) (is : List Nat) :
+    ∀ f : File, WF f → (∀ i ∈ is, i < 4 + numExtra f) →
+      WF (blankSlots f rec is) ∧ absData (blankSlots f rec is) = absData f ∧
+      enabler (blankSlots f rec is) = enabler f ∧ schemaOf (blankSlots f rec is) = schemaOf f ∧
+      enumerateLeases (blankSlots f rec is) = (enumerateLeases f).filter (fun p => !is.contains p.1) := by
+  induction is with
+  | nil =>
+    intro f hwf _
+    have : ∀ L : List (Nat × Lease), L.filter (fun _ => true) = L := by
+      intro L; induction L with
+      | nil => rfl
+      | cons a t ih => simp [List.filter_cons, ih]
+    simp [blankSlots, hwf, this]
+  | cons i rest ih =>
+    intro f hwf his
+    have hi := his i (List.mem_cons_self ..)
+    obtain ⟨lw, hnum⟩ := writeLeaseRecord_spec f hwf i rec hrec (by omega) (Or.inl hi)
+    rw [if_pos hi] at hnum
+    obtain ⟨a, b, c, d, e⟩ := ih (writeLeaseRecord f i rec) lw.wf
+      (fun j hj => by rw [hnum]; exact his j (List.mem_cons_of_mem _ hj))
+    simp only [blankSlots]
+    refine ⟨a, b.trans (lw.data hwf), c.trans lw.enabler, d.trans lw.schema, ?_⟩
+    rw [e, enumerateLeases_blank f hwf i hi rec hrec hdec, List.filter_filter]
+    apply List.filter_congr
+    intro p _
+    by_cases hp : p.1 = i <;> simp [hp, Bool.and_comm]
+
 end Tahoe.Storage.Mutable
